@@ -1,4 +1,5 @@
 import Driver.C16
+import Driver.Run
 
 open Driver
 
@@ -9,4 +10,6 @@ def main (args : List String) : IO Unit :=
   | ["c16"] => runLoop () (fun st toks => match toks with
       | "cmp" :: a => (st, c16 a)
       | _ => (st, "bad-op"))
+  | ["par"] => runLoop ({} : Driver.Run.Sys) Driver.Run.parStep
+  | ["serial"] => runLoop ({} : Driver.Run.SerialSys) Driver.Run.serStep
   | _ => IO.eprintln "usage: driver <mode>"
